@@ -45,6 +45,7 @@ type pshape struct {
 	havingRef func(r rrow) bool
 	limit     int // -1 = none
 	prop      string
+	na        int // number of anchors to draw from (0 = the two base anchors)
 }
 
 func (sh pshape) text() string {
@@ -279,6 +280,7 @@ var pipeShapes = []pshape{
 	22: {cs: []xclause{clSAO}, okinds: []int{0}, sel: []proj{pO, {binding: "s", op: "count", alias: "n"}}, groupBy: []string{"o"}, order: []ordKey{{"n", true}, {"o", false}}, limit: 1, prop: "C11"},
 	23: {cs: []xclause{clSAO, clOAZ}, okinds: []int{0}, sel: []proj{pS, {binding: "z", op: "count", alias: "n"}, {binding: "o", op: "count", distinct: true, alias: "m"}}, groupBy: []string{"s"}, limit: -1, prop: "C11"},
 	24: {cs: []xclause{xq(qclause{s: bS, p: bP, o: bO})}, okinds: []int{0}, sel: []proj{pS, {binding: "p"}, {binding: "o", op: "count", alias: "n"}}, groupBy: []string{"s", "p"}, limit: -1, prop: "C11"},
+	30: {cs: []xclause{clSAOT}, okinds: []int{0}, temporal: true, na: 3, sel: []proj{{binding: "t"}, {binding: "s", op: "count", alias: "n"}}, groupBy: []string{"t"}, limit: -1, prop: "C11x"},
 	// ---- C12 again: ORDER BY survives HAVING (the planner sorts first, then filters, then limits); needs three rows
 	25: {cs: []xclause{clSAO}, okinds: []int{0}, sel: []proj{pS, pO}, order: []ordKey{{"s", false}}, having: "not ?o = /u<b>", havingRef: func(r rrow) bool { return r["o"].b != 'b' }, limit: -1, prop: "C12x"},
 	26: {cs: []xclause{clSAO}, okinds: []int{2}, sel: []proj{pS, pO}, order: []ordKey{{"o", true}, {"s", false}}, having: "not ?s = /u<a>", havingRef: func(r rrow) bool { return r["s"].b != 'a' }, limit: 1, prop: "C12x"},
@@ -288,7 +290,7 @@ var pipeShapes = []pshape{
 
 // HarnessPipeline: PROP selects the property whose shapes are run (11, 12, 13).
 func HarnessPipeline() {
-	want := map[int]string{11: "C11", 12: "C12", 13: "C13", 120: "C12x"}[verif.Param("PROP", 12)]
+	want := map[int]string{11: "C11", 12: "C12", 13: "C13", 120: "C12x", 110: "C11x"}[verif.Param("PROP", 12)]
 	var idx []int
 	for i, sh := range pipeShapes {
 		if sh.prop == want {
@@ -303,8 +305,9 @@ func HarnessPipeline() {
 	id := sh.prop[:3] + "/e2e"
 	K := 1 + verif.Choice("k", verif.Param("K", 2))
 	data := make([]*dspec, K)
+	allTemporal = sh.na > 0
 	for i := range data {
-		data[i] = symDataX("d", sh.temporal, sh.okinds)
+		data[i] = symDataX("d", sh.temporal, sh.okinds, sh.na)
 	}
 	st, _ := newStoreWith("?g", dtriples(data))
 	q := sh.text()
